@@ -322,3 +322,9 @@ def run(chk):
     rule_child_keys(chk, "C07.9")
     X.rule_metadata_location_injective(chk, "C07.10")
     X.rule_removedir_recursion(chk, "C07.11", [("liquer.store", "FileStore"), ("liquer.store", "MemoryStore"), ("liquer.store", "OverlayStore"), ("liquer.store", "MountPointStore")])
+    X.rule_size_md5_identity_test(chk, "C07.12")
+    X.rule_remove_both_unconditional(chk, "C07.13")
+    from . import c14
+    c14.rule_prefix_algebra(chk, "C07.14")
+    c14.rule_last_mount_wins(chk, "C07.15")
+    X.rule_prefix_tests_at_boundary(chk, "C07.16")
